@@ -192,6 +192,24 @@ func c11Direct(p *types.Project, explicit map[string]interface{}) string {
 			return fmt.Sprintf("dockerfile is %q; the rules define %q", a.Build.Dockerfile, asStr(asMap(x)["v"]))
 		}
 	}
+	// device reservations: the count written (or the default `all` = -1), never another one
+	if g, ok := svc["gpus"]; ok {
+		for i, e := range asList(asMap(g)["v"]) {
+			em := asMap(asMap(e)["v"])
+			if i >= len(a.Gpus) {
+				return fmt.Sprintf("gpus has %d entries; the rules define %d", len(a.Gpus), len(asList(asMap(g)["v"])))
+			}
+			if cnt, ok := em["count"]; ok {
+				want := int64(-1)
+				if asStr(asMap(cnt)["t"]) == "i" {
+					want = int64(asInt(asMap(cnt)["v"]))
+				}
+				if int64(a.Gpus[i].Count) != want {
+					return fmt.Sprintf("gpus[%d].count is %d; the rules define %d (-1 = all)", i, a.Gpus[i].Count, want)
+				}
+			}
+		}
+	}
 	if pp, ok := svc["pull_policy"]; ok && a.PullPolicy != asStr(asMap(pp)["v"]) {
 		return fmt.Sprintf("pull_policy is %q; the rules define %q", a.PullPolicy, asStr(asMap(pp)["v"]))
 	}
